@@ -228,6 +228,7 @@ def run_tlc(
     allow_violation=False,
     extra=(),
     tag=None,
+    ignore_actions=(),
 ):
     """Runs TLC on /verif/spec/<module>.tla with config <cfg> (a file name under spec/cfg or cfg text).
 
@@ -297,12 +298,16 @@ def run_tlc(
         sys.stderr.write("note: %s reported %s with %d workers; re-running with 1 worker\n" % (module, res.violated, workers))
         return run_tlc(module, cfg, workers=1, timeout=max(timeout * 4, 1800), env=env, depth=depth, seed=seed,
                        coverage=coverage, heap=heap, dfs_queue=dfs_queue, allow_violation=allow_violation, extra=extra,
-                       tag=(tag + "-w1"))
+                       tag=(tag + "-w1"), ignore_actions=ignore_actions)
     if res.violated and not allow_violation:
         raise MachineryError("design-level property violated on %s: %s\n%s" % (module, res.violated, res.out[-4000:]))
     if res.rc not in (0, 12, 13) and not res.violated:
         raise MachineryError("TLC exit code %s on %s\n%s" % (res.rc, module, res.out[-3000:]))
     res.ok = not res.violated
+    if coverage and not simulate and res.coverage:
+        dead = [a for a, (d, t) in res.coverage.items() if t == 0 and a not in ignore_actions]
+        if dead:
+            raise MachineryError("vacuous: action(s) %s of %s never taken under %s" % (dead, module, cfg if "\n" not in cfg else "<inline cfg>"))
     return res
 
 
@@ -554,8 +559,10 @@ class Report:
             self.drift.append(what)
 
     def finish(self):
-        os.makedirs(os.path.join(VERIF, "evidence"), exist_ok=True)
-        os.makedirs(os.path.join(VERIF, "replay"), exist_ok=True)
+        evdir = os.environ.get("VERIF_EVIDENCE_DIR", os.path.join(VERIF, "evidence"))     # overridden by tools/seed_matrix.sh only
+        rpdir = os.environ.get("VERIF_REPLAY_DIR", os.path.join(VERIF, "replay"))
+        os.makedirs(evdir, exist_ok=True)
+        os.makedirs(rpdir, exist_ok=True)
         seen_known = set()
         for v in self.known:
             f = v["known"]
@@ -579,7 +586,7 @@ class Report:
                 "input": v["replay"],
             }
             hid = hashlib.sha256(json.dumps(body, sort_keys=True, default=str).encode()).hexdigest()[:12]
-            path = os.path.join(VERIF, "replay", "%s-%s.json" % (self.pid, hid))
+            path = os.path.join(rpdir, "%s-%s.json" % (self.pid, hid))
             with open(path, "w") as f:
                 json.dump(body, f, indent=1, default=str)
             if len(printed) <= 20:
@@ -605,7 +612,7 @@ class Report:
             "wall_s": round(time.time() - self.t0, 2),
             "violations": len(self.violations),
         }
-        with open(os.path.join(VERIF, "evidence", self.pid + ".json"), "w") as f:
+        with open(os.path.join(evdir, self.pid + ".json"), "w") as f:
             json.dump(ev, f, indent=1, default=str)
         return 1 if self.violations else 0
 
